@@ -146,6 +146,16 @@ def run_chain(chk, spec):
 
 def chain_cases(chk, count, how1s, how2s):
 	rng = chk.rng
+	# directed: the first join leaves None in a KEY column of its result (padded unmatched rows, either side), the second join meets it with a None key of its own
+	for how1 in dict.fromkeys(how1s):
+		for ids, custs in (([1, 2], [2, 3]), ([1, 2, None], [2, 3]), ([1, 2], [2, None, 3]), ([1], [2]), ([None, 1], [1, 1, 4])):
+			for who in ([None, 1, 3], [3, None], [None], [2, 2, None, 4]):
+				for key2 in ("id", "cust"):
+					for key_mode2 in ("name", "vector"):
+						A = {"names": ["id", "lid"], "cols": [list(ids), [f"A{i}" for i in range(len(ids))]]}
+						B = {"names": ["cust", "rid"], "cols": [list(custs), [f"B{i}" for i in range(len(custs))]]}
+						C = {"names": ["who", "cid"], "cols": [list(who), [f"C{i}" for i in range(len(who))]]}
+						chk.case("chain", {"A": A, "B": B, "C": C, "how1": how1, "how2": list(dict.fromkeys(how2s)), "key2": key2, "key_mode2": key_mode2}, "chain-directed")
 	for _ in range(count):
 		dom = rng.choice([[1, 2, 3, 4, None], [1, 2, 3, 4, None], [1, True, 0, False, 2, None], [True, False, 7, 9]])     # mixed int / bool columns: the surviving rows may all be bool
 
